@@ -8,6 +8,7 @@ import Cosi.Driver.Store
 import Cosi.Driver.Watch
 import Cosi.Driver.Helpers
 import Cosi.Driver.KeyStorage
+import Cosi.Driver.Queue
 
 open Cosi
 
@@ -20,7 +21,9 @@ def engines : List (String × Engine) := [
   ("store-seq", ⟨Driver.Store.St, Driver.Store.init, Driver.Store.stepLine⟩),
   ("watch", ⟨WSys, Driver.Watch.init, Driver.Watch.stepLine⟩),
   ("helpers", ⟨HSys, Driver.Helpers.init, Driver.Helpers.stepLine⟩),
-  ("keystorage", ⟨Driver.KeyStorage.St, Driver.KeyStorage.init, Driver.KeyStorage.stepLine⟩)
+  ("keystorage", ⟨Driver.KeyStorage.St, Driver.KeyStorage.init, Driver.KeyStorage.stepLine⟩),
+  ("queue", ⟨Driver.Queue.St, Driver.Queue.init, Driver.Queue.stepQueue⟩),
+  ("qreconcile", ⟨Driver.Queue.St, Driver.Queue.init, Driver.Queue.stepReconcileAny⟩)
 ]
 
 partial def loop (e : Engine) (spec : Bool) (inp : IO.FS.Stream) (out : IO.FS.Stream) (st : e.σ) : IO Unit := do
